@@ -754,7 +754,15 @@ def run(ctx):
     from gnpy.core.science_utils import estimate_nf_model
     warnings.simplefilter('ignore')
     rng = ctx.rng
+    # second tie: re-translate the listed fragments of elements.py / info.py / json_io.py / science_utils.py from /repo's
+    # source; the equivalence lemmas of Proofs/AmpGen.v are then re-checked by check_props against what the code says now
+    from . import pygen_c04
+    gen_ok, gen_msg = pygen_c04.regenerate()
     ctx.proof = common.check_props('C04')
+    if not gen_ok:
+        ctx.proof['ok'] = False
+        ctx.proof['log'] = 'harness/pygen_c04.py: ' + gen_msg + '\n' + ctx.proof.get('log', '')
+        ctx.proof['failed_file'] = 'theories/Gen/AmpGen.v (translation of /repo source failed)'
     ctx.rule = ('random amplifier (every Edfa entry of the shipped and test libraries: variable_gain, fixed_gain, '
                 'advanced_model, openroadm, openroadm_preamp, openroadm_booster, dual_stage, multi_band; or a random '
                 'variable-gain datasheet through Amp.from_json) x set gain in [gain_min-3, gain_flatmax+3] x tilt x '
@@ -776,7 +784,7 @@ def run(ctx):
     if ctx.replay:
         cases = [json.load(open(ctx.replay))['case']]
     else:
-        n = ctx.scale(340, 3000)
+        n = ctx.scale(300, 3000)
         # every library entry at least once, then random
         # plus one case with the set gain above the flat range / below the minimum / inside, far from saturation,
         # so that every NF model is exercised on both sides of its gain range without the clamp interfering
@@ -910,6 +918,12 @@ def run(ctx):
         if d:
             ctx.corr_break('corr:Amp.estimate_nf_model', d, {'datasheet': ds})
     ctx.assumptions += [
+        'translator tie: harness/pygen_c04.py (fail-closed Python-ast -> Gallina over Num for Edfa._nf, the stage gains and '
+        'cascade formula of Edfa._calc_nf, pin_db / slot_width / saturation clamp of Edfa.interpol_params, the ASE formula '
+        'of noise_profile, the gain applied by propagate, the scalar steps of _gain_profile, info.is_in_band, the limits set '
+        'by json_io._update_dual_stage and the whole of science_utils.estimate_nf_model; the numpy bookkeeping of these '
+        'functions, Edfa.__call__ and demuxed_spectral_information are matched statement by statement against templates) '
+        'is trusted; float literals are read as exact decimals',
         'NumF (binary64 with Gallina exp/ln) approximates NumR: not proved; self-tested against libm by the C03 check, '
         'absorbed by the 1e-7 tolerance',
         'polyfit(freq, dgt, 1)[0] is modelled by the closed-form least-squares slope; numpy.interp / linspace by their '
